@@ -364,6 +364,8 @@ impl<Octs: Octets> Parameter<Octs> {
             warn!("Optional Parameter in BGP OPEN other than Capability: {}",
                 typ
             );
+            // jump over the value, it is not another parameter
+            parser.advance(len)?;
         }
         Ok(())
     }
